@@ -66,6 +66,11 @@ fn scenario(seed: u64, rep: &Report) -> Result<(), String> {
     let pool_size = rng.range(1, 2) as u32;
     let (mut cell, mut cfg) = simple_cell(&["primary"], pool_size, "transaction");
     cfg.gset("connect_timeout", "8000");
+    if rng.chance(1, 4) {
+        // without the cleanup option nothing resets a connection between clients: parameter
+        // tracking alone has to carry the property
+        cfg.pools[0].set("cleanup_server_connections", "false");
+    }
     cell.start_pgcat(&cfg, &StartOpts::default())
         .map_err(|e| format!("start: {:?}", e))?;
     let addr = cell.addr();
@@ -151,6 +156,24 @@ fn scenario(seed: u64, rep: &Report) -> Result<(), String> {
                             return Err(format!("{} SET rejected {} {}", qid, code, msg));
                         }
                         last_class.insert(disp.to_string(), class.to_string());
+                    }
+                    7 if rng.chance(1, 2) => {
+                        // a tracked parameter changed INSIDE a transaction block (committed or rolled
+                        // back): the pooler sees it only through ParameterStatus, nothing marks the
+                        // connection for RESET ALL
+                        let (name, disp, val) = match rng.below(3) {
+                            0 => ("TimeZone", "TimeZone", rng.pick(&["Europe/Paris", "Asia/Dubai", "America/Lima"]).to_string()),
+                            1 => ("DateStyle", "DateStyle", rng.pick(&["SQL, DMY", "German, DMY"]).to_string()),
+                            _ => ("application_name", "application_name", format!("intx{}", rng.below(100))),
+                        };
+                        let end = if rng.chance(3, 4) { "COMMIT" } else { "ROLLBACK" };
+                        for (k, sql) in [format!("BEGIN {}", tag(&cid, &format!("{}a", qid), "")), format!("SET {} TO {} {}", name, quote_literal(&val), tag(&cid, &format!("{}b", qid), "")), format!("{} {}", end, tag(&cid, &format!("{}c", qid), ""))].iter().enumerate() {
+                            let r = c.query(sql, 15_000).map_err(|(m, e)| format!("{} step {}: {:?} {}", qid, k, e, summarize(&m)))?;
+                            if let Some((code, msg)) = first_error(&r) {
+                                return Err(format!("{} step {} rejected {} {}", qid, k, code, msg));
+                            }
+                        }
+                        last_class.insert(disp.to_string(), format!("set_in_transaction_{}", end.to_lowercase()));
                     }
                     7 => {
                         let _ = c
